@@ -201,7 +201,8 @@ def make_traced(nbytes):
             def authenticate_incoming_message(key, data, digest, engine_id):
                 return True
 
-        saved = usm.auth.create
+        from engine.core import seam
+        saved = seam(seam(usm, "auth"), "create")
         usm.auth.create = lambda method: ConstMac
         try:
             req = capture_request(world, lambda: world.client.set(C.poid(C.U14[2]), OctetString(payload)), 4242, 2)
